@@ -7,7 +7,7 @@ Oracle   for each accepted cfg: validate(cfg) does not raise; typed_eq(parse_obj
 """
 import copy
 
-from ..core import fmt_exc, innermost_pkg_frame, run_given, short
+from ..core import fmt_exc, innermost_pkg_frame, run_given, with_spellings, short
 from ..gen import parsers as P
 from ..gen import types as G
 from . import _rt
@@ -206,7 +206,7 @@ def run_shard(spec, ctx):
     from . import _kinds
 
     main = _rt.case_strategy(spec["depth"])
-    run_given(ctx, st.integers(0, 9).flatmap(lambda i: file_case_strategy() if i == 0 else _kinds.case_strategy() if i <= 2 else main), body(ctx), spec["n"])
+    run_given(ctx, with_spellings(st.integers(0, 9).flatmap(lambda i: file_case_strategy() if i == 0 else _kinds.case_strategy() if i <= 2 else main)), body(ctx), spec["n"])
 
 
 def health(tier, evaluations, nontrivial, classes):
